@@ -241,6 +241,14 @@ func runReplay(out *hx.Out, file, prop string) {
 			out.End()
 			open = false
 			metricsCase(s, cnt)
+		case "STRANGERS":
+			if s == nil || !open || len(f) < 2 {
+				continue
+			}
+			cnt, _ := strconv.Atoi(f[1])
+			out.End()
+			open = false
+			strangersCase(s, cnt)
 		case "FUZZ":
 			if s == nil || !open || len(f) < 4 {
 				continue
